@@ -1,5 +1,6 @@
 import Labella.Driver.LayoutCmd
 import Labella.Driver.TextCmd
+import Labella.Driver.CalCmd
 /-! Line-protocol driver: one case per line in, one verdict line out.  A line that cannot be parsed is
 answered `bad-line` (an infrastructure error for the harness, never a default verdict). -/
 open Labella.Driver
@@ -14,6 +15,11 @@ def dispatch (line : String) : String :=
     | "names" :: rest => namesCmd rest
     | "color" :: rest => colorCmd rest
     | "tex" :: rest => texCmd rest
+    | "cal" :: rest => calCmd rest
+    | "calrange" :: rest => calRangeCmd rest
+    | "tticks" :: rest => tticksCmd rest
+    | "tnice" :: rest => tniceCmd rest
+    | "tscale" :: rest => tscaleCmd rest
     | _ => none
   r.getD "bad-line"
 
